@@ -17,9 +17,31 @@ type modset struct {
 	allocs bool
 	why    string
 	locals map[*ssa.Alloc]bool // non-escaping locals stored to (not propagated to callers)
+	iters  map[*ssa.Range]bool // map iterators advanced (not propagated to callers)
+	// interior-pointer arguments: callee families rooted at the embedded
+	// struct's type are also written under the enclosing object's root
+	trans map[*ssa.Function][][2]string
 }
 
-func newModset() *modset { return &modset{fams: map[string]string{}, locals: map[*ssa.Alloc]bool{}} }
+// unionTranslated adds o's families, renamed through the interior-pointer
+// arguments recorded for calls of callee.
+func (m *modset) unionTranslated(callee *ssa.Function, o *modset) bool {
+	changed := false
+	for _, tr := range m.trans[callee] {
+		for fam, srt := range o.fams {
+			if strings.HasPrefix(fam, tr[0]) {
+				nf := tr[1] + fam[len(tr[0]):]
+				if _, ok := m.fams[nf]; !ok {
+					m.fams[nf] = srt
+					changed = true
+				}
+			}
+		}
+	}
+	return changed
+}
+
+func newModset() *modset { return &modset{fams: map[string]string{}, locals: map[*ssa.Alloc]bool{}, iters: map[*ssa.Range]bool{}, trans: map[*ssa.Function][][2]string{}} }
 
 func (m *modset) union(o *modset) bool {
 	changed := false
@@ -133,6 +155,10 @@ func (eng *Engine) instrMods(fn *ssa.Function, ins ssa.Instruction, m *modset, c
 		} else {
 			m.addLeaves(t, "", t)
 		}
+	case *ssa.Next:
+		if r, ok := x.Iter.(*ssa.Range); ok {
+			m.iters[r] = true
+		}
 	case *ssa.MakeSlice:
 		m.allocs = true
 		m.addElem(x.Type().Underlying().(*types.Slice).Elem())
@@ -155,6 +181,32 @@ func (eng *Engine) instrMods(fn *ssa.Function, ins ssa.Instruction, m *modset, c
 		}
 	case *ssa.Call:
 		eng.callMods(fn, x.Common(), m, callees)
+		if callee := x.Common().StaticCallee(); callee != nil {
+			for _, a := range x.Common().Args {
+				if _, isPtr := a.Type().Underlying().(*types.Pointer); !isPtr {
+					continue
+				}
+				root, path, cur, ok := resolveAddr(a)
+				if !ok || path == "" || root == nil || cur == nil {
+					continue
+				}
+				if _, isStruct := cur.Underlying().(*types.Struct); !isStruct {
+					continue
+				}
+				from := family(cur, "")
+				to := family(root, path+".")
+				tr := [2]string{strings.TrimSuffix(from, "#"), strings.TrimSuffix(to, "#")}
+				dup := false
+				for _, e := range m.trans[callee] {
+					if e == tr {
+						dup = true
+					}
+				}
+				if !dup {
+					m.trans[callee] = append(m.trans[callee], tr)
+				}
+			}
+		}
 	case *ssa.Defer, *ssa.Go:
 		m.all = true
 		m.why = "defer/go in " + fn.String()
@@ -294,6 +346,9 @@ func (eng *Engine) modsetOf(fn *ssa.Function) *modset {
 				if direct[f].union(direct[c]) {
 					changed = true
 				}
+				if direct[f].unionTranslated(c, direct[c]) {
+					changed = true
+				}
 			}
 		}
 	}
@@ -313,6 +368,7 @@ func (eng *Engine) loopModset(fn *ssa.Function, li *loopInfo) *modset {
 	}
 	for _, c := range cs {
 		m.union(eng.modsetOf(c))
+		m.unionTranslated(c, eng.modsetOf(c))
 	}
 	return m
 }
